@@ -133,7 +133,7 @@ class Builder(Harness):
                     else:
                         into = ch.choose(kwp, f"into{e}").name
                 else:
-                    into = "nokw"
+                    into = ch.choose(["nokw", ""], f"unknown{e}")
                 edges.append((src, out, snk, into))
                 jb = jb.with_edge(src, snk, into, out)
                 ok_src = src in names and out == "0"
